@@ -57,8 +57,8 @@ MonInit0 ==
    wseen   |-> {},        \* tokens of application frames seen on the wire
    refused |-> {},        \* tokens submitted while the stage did not allow writing
    ops     |-> <<>>,      \* started calls by id: [api, done, t]
-   flushing|-> {},        \* ids of asynchronous calls with a flush in progress
-   ovl     |-> FALSE,     \* a flush was started while another one was in progress
+   pend    |-> 0,         \* Pending() as last sampled: frames queued and not yet taken by a flush
+   ovl     |-> FALSE,     \* a transport write was started while another one was in flight
    bad     |-> ""]
 
 Fail(m, key) == [m EXCEPT !.bad = key]
@@ -70,6 +70,10 @@ Unsent(m) ==
   Cardinality(m.wtoks \ (m.wseen \cup m.refused))
   + Cardinality({k \in DOMAIN m.owed : m.owed[k].must})
   + (IF m.ccode # -1 /\ m.closes = 0 THEN 1 ELSE 0)
+
+\* Frames taken out of the queue by a flush and not yet (completely) on the
+\* wire: a transport write is in flight.
+InFlight(m) == Unsent(m) - m.pend > 0
 
 CanRead(m) == m.stage \in {"active", "closedByUs"}
 
@@ -85,11 +89,10 @@ ObsPeer(m, e) ==
 \* ------------------------------------------------------------------ Call
 ObsCall(m, e) ==
   LET id   == Len(m.ops) + 1
-      work == e.api \in WriteApis \cup CloseApis \/ Unsent(m) > 0
+      \* the call starts a transport write: something is queued, or it queues its own frame
+      starts == m.pend > 0 \/ (e.api \in WriteApis \cup CloseApis /\ m.stage = "active")
       m1   == [m EXCEPT !.ops = Append(@, [api |-> e.api, done |-> 0, t |-> e.t])]
-      m2   == IF e.api \in AsyncApis /\ work
-                THEN [m1 EXCEPT !.ovl = @ \/ m.flushing # {}, !.flushing = @ \cup {id}]
-                ELSE m1
+      m2   == IF e.api \in AsyncApis /\ starts /\ InFlight(m) THEN [m1 EXCEPT !.ovl = TRUE] ELSE m1
   IN
   IF e.id # id THEN Fail(m, "C08/harness/call-id")
   ELSE IF e.api \in WriteApis THEN
@@ -121,13 +124,14 @@ ObsGot(m, e) ==
     IN
     IF pk # e.k \/ (e.k \in {"data", "ping", "pong"} /\ p.t # e.t) THEN Fail(m, "C08/rx-mismatch/" \o pk)
     ELSE IF e.k = "ping" THEN
+      \* AsyncNextMessage goes on reading: it flushes the reply it has just queued
       [m1 EXCEPT !.owed = Append(@, [t |-> e.t, must |-> (m.stage = "active"), due |-> 0]),
-                 !.flushing = IF m.stage = "active" /\ m.ops[e.id].api = "AsyncNextMessage" THEN @ \cup {e.id} ELSE @]
+                 !.ovl = @ \/ (m.stage = "active" /\ m.ops[e.id].api = "AsyncNextMessage" /\ InFlight(m))]
     ELSE IF e.k = "pong" THEN [m1 EXCEPT !.pongs = @ \cup {e.t}]
     ELSE IF e.k = "close" THEN
       IF m.stage = "active"
         THEN [m1 EXCEPT !.stage = "closedByPeer", !.ccode = ReplyCode(p), !.cwhy = "reply",
-                        !.flushing = IF m.ops[e.id].api = "AsyncNextMessage" THEN @ \cup {e.id} ELSE @]
+                        !.ovl = @ \/ (m.ops[e.id].api = "AsyncNextMessage" /\ InFlight(m))]
         ELSE [m1 EXCEPT !.stage = "closeAcked"]
     ELSE m1
 
@@ -141,8 +145,7 @@ ObsWire(m, e) ==
       Fail(m, "C08/second-close/" \o (IF m.vafter THEN "after-violation" ELSE m.stage))
     ELSE IF m.ccode = -1 THEN Fail(m, "C08/close-unsolicited")
     ELSE IF e.c # m.ccode THEN Fail(m, "C08/close-code/" \o m.cwhy)
-    ELSE LET m1 == [m EXCEPT !.closes = 1, !.cwhy = IF @ = "local?" THEN "local" ELSE @]
-         IN IF Unsent(m1) = 0 THEN [m1 EXCEPT !.flushing = {}] ELSE m1
+    ELSE [m EXCEPT !.closes = 1, !.cwhy = IF @ = "local?" THEN "local" ELSE @]
   ELSE IF e.k = "data" THEN
     IF m.closes >= 1 THEN Fail(m, "C08/data-after-close")
     ELSE IF e.t \in m.wseen THEN Fail(m, "C17/wire-repeat/" \o Class(m))
@@ -150,8 +153,7 @@ ObsWire(m, e) ==
     ELSE IF e.t \in m.refused THEN Fail(m, "C08/write-after-close/on-wire")
     ELSE IF \E k \in DOMAIN m.owed : m.owed[k].must /\ m.owed[k].due # 0 /\ m.owed[k].due <= m.ndata + 1
       THEN Fail(m, "C08/pong-order/behind-application-frame")
-    ELSE LET m1 == [m EXCEPT !.ndata = @ + 1, !.wseen = @ \cup {e.t}]
-         IN IF Unsent(m1) = 0 THEN [m1 EXCEPT !.flushing = {}] ELSE m1
+    ELSE [m EXCEPT !.ndata = @ + 1, !.wseen = @ \cup {e.t}]
   ELSE IF e.k = "pong" THEN
     IF e.t \in m.ponged THEN Fail(m, "C08/pong-twice")
     ELSE IF e.t \in m.pongs THEN Fail(m, "C08/pong-answered")
@@ -160,8 +162,7 @@ ObsWire(m, e) ==
       LET k == CHOOSE k \in DOMAIN m.owed : m.owed[k].t = e.t IN
       IF \E j \in 1..(k - 1) : m.owed[j].must THEN Fail(m, "C08/pong-order/arrival")
       ELSE IF m.closes >= 1 /\ m.owed[k].must THEN Fail(m, "C08/pong-order/behind-close")
-      ELSE LET m1 == [m EXCEPT !.owed = SubSeq(@, k + 1, Len(@)), !.ponged = @ \cup {e.t}]
-           IN IF Unsent(m1) = 0 THEN [m1 EXCEPT !.flushing = {}] ELSE m1
+      ELSE [m EXCEPT !.owed = SubSeq(@, k + 1, Len(@)), !.ponged = @ \cup {e.t}]
   ELSE Fail(m, "C08/harness/wire-kind")
 
 \* ------------------------------------------------------------------ Done
@@ -169,7 +170,7 @@ ObsDone(m, e) ==
   IF e.id \notin DOMAIN m.ops THEN Fail(m, "C08/harness/done-id")
   ELSE
   LET op == m.ops[e.id]
-      m1 == [m EXCEPT !.ops[e.id].done = 1, !.flushing = @ \ {e.id}]
+      m1 == [m EXCEPT !.ops[e.id].done = 1]
   IN
   IF op.done # 0 THEN Fail(m, "C17/callback-twice/" \o op.api)
   ELSE IF op.api \in ReadApis THEN
@@ -227,7 +228,7 @@ ObsSample(m, e) ==
   IN
   IF ~ok THEN Fail(m, "C08/state/" \o m.stage \o ":" \o s)
   ELSE IF m.sawTerm /\ s # "terminated" THEN Fail(m, "C08/state/left-terminated")
-  ELSE [m EXCEPT !.sawTerm = (s = "terminated")]
+  ELSE [m EXCEPT !.sawTerm = (s = "terminated"), !.pend = e.pend]
 
 \* ------------------------------------------------------------------- End
 LostOps(m) == {k \in DOMAIN m.ops : m.ops[k].done = 0}
